@@ -152,12 +152,61 @@ def named_only(cred, form):
     return dict(form, client_id=cred[0]) if cred and cred[1] is None else form
 
 
+class DjangoBackend:
+    """The same operations on the repository's Django provider integration (impl/django_provider.py): its own query_client /
+    save_token / settings handling, its RevocationEndpoint and ResourceProtector.  Checked against the property's oracles only."""
+
+    def __init__(self):
+        from impl import django_provider as DP
+        store = self.store = S.Store()
+        for c in REG:
+            cl = S.Client(c["id"], c["secret"], [], c["scope"], c["grants"], [], "client_secret_basic")
+            cl.user_id = "owner-of-" + c["id"]
+            store.clients[c["id"]] = cl
+        S.PK.clear()
+        S.PK["bob"] = 0          # a resource owner whose primary key is falsy
+        self.p = DP.OAuth2Provider(store, {"alice": "pw", "bob": "pw"})
+        g = self.p.grants
+        for k in ("password", "client_credentials", "refresh"):
+            self.p.server.register_grant(g[k])
+
+        class Intro(IntrospectionEndpoint):
+            def query_token(self, token_string, token_type_hint):
+                for t in store.tokens:
+                    if (token_type_hint in (None, "access_token") and t.access_token == token_string) or \
+                            (token_type_hint in (None, "refresh_token") and t.refresh_token == token_string):
+                        return t
+
+            def check_permission(self, token, client, request):
+                return token.client_id == client.client_id or client.client_id == "rs"
+
+            def introspect_token(self, token):
+                return {"client_id": token.client_id, "scope": token.get_scope()}
+        self.p.server.register_endpoint(Intro)
+
+    def create_token_response(self, req):
+        return self.p.token(req.form, req.headers)
+
+    def create_endpoint_response(self, name, req):
+        return self.p.endpoint(name, req.form, req.headers)
+
+    def validate(self, required, authorization):
+        return self.p.acquire(authorization, required)
+
+    def final(self):
+        return [[r.client_id, r.scope if r.scope else None, bool(r.access_token_revoked_at), bool(r.refresh_token_revoked_at), r.user_id] for r in self.store.tokens]
+
+
 def run_impl(ops, transport="neutral"):
     clock = Clock()
     real = time.time
     time.time = clock
     try:
-        srv, rp, session, Token = build(transport)
+        if transport == "django-provider":
+            srv = DjangoBackend()
+            rp = session = Token = None
+        else:
+            srv, rp, session, Token = build(transport)
         tokens = []   # (access string, refresh string)
         outs = []
         for o in ops:
@@ -199,7 +248,10 @@ def run_impl(ops, transport="neutral"):
                     req = type("R", (), {"headers": {"Authorization": "Bearer " + s}})()
                     required = o["required"]
                     try:
-                        t = rp.validate_request([required] if isinstance(required, str) else required, req)
+                        if rp is None:
+                            t = srv.validate(required, "Bearer " + s)
+                        else:
+                            t = rp.validate_request([required] if isinstance(required, str) else required, req)
                         outs.append(["serve", next(i for i, (a, r) in enumerate(tokens) if a == t.access_token)])
                     except OAuth2Error as e:
                         outs.append(["error", e.status_code, e.error])
@@ -208,6 +260,8 @@ def run_impl(ops, transport="neutral"):
                     outs.append(["none"])
             except Exception as e:  # noqa
                 outs.append(["escapes", type(e).__name__, str(e)[:80]])
+        if rp is None:
+            return {"outs": outs, "tokens": srv.final()}
         rows = session.query(Token).order_by(Token.id).all()
         final = [[r.client_id, r.scope if r.scope else None, bool(r.access_token_revoked_at), bool(r.refresh_token_revoked_at)] for r in rows]
         session.close()
@@ -273,6 +327,31 @@ def check_seq(ctx, ops, tag):
         ctx.count("out:%s:%s" % (o["op"], x[0] if x[0] != "error" else x[2]))
     # the model counts only successful issues; renumber references is unnecessary because failed issues create no token
     ctx.compare("tokenlife", case, got, mod)
+    check_history(ctx, ops, got, case)
+
+
+def check_seq_django(ctx, ops, tag):
+    got = run_impl(ops, "django-provider")
+    case = {"ops": ops, "provider": "django"}
+    ctx.case(case, ("django", tag, json.dumps(ops, sort_keys=True)), "django-seq:%s:len%d" % (tag, len(ops)))
+    for o, x in zip(ops, got["outs"]):
+        ctx.count("django-out:%s:%s" % (o["op"], x[0] if x[0] != "error" else x[2]))
+    check_history(ctx, ops, got, case)
+    # every stored token belongs to the user who authenticated for it (password grant) or, with no user, to the client's owner
+    want_users = []
+    for o, x in zip(ops, got["outs"]):
+        if x[0] == "token":
+            if o["op"] == "issue":
+                want_users.append({"bob": 0}.get(o["user"], o["user"]) if o["password"] else "owner-of-" + o["cred"][0])
+            else:
+                ref = o["token"]
+                want_users.append(want_users[ref[1]] if isinstance(ref, list) and ref[1] < len(want_users) else None)
+    have = [r[4] for r in got["tokens"]]
+    if have != want_users:
+        ctx.violation("C09:django:token-owner", "a token was stored under another user than the one it was issued for", dict(case, stored=have, expected=want_users))
+
+
+def check_history(ctx, ops, got, case):
     # ---- the property on the implementation's history
     owner = {}      # idx -> client
     revoked_by_owner = set()
@@ -348,6 +427,9 @@ def run(ctx):
     n = 260 if ctx.tier == "quick" else 6000
     for i in range(n):
         check_seq(ctx, gen_ops(rng, rng.choice([4, 6, 8, 12])), "walk")
+    # the same kind of walk on the Django provider integration (property oracles only)
+    for i in range(n // 2):
+        check_seq_django(ctx, gen_ops(rng, rng.choice([4, 6, 8])), "walk")
     # golden scenarios
     issue = {"op": "issue", "password": True, "cred": ["c1", "s1"], "user": "alice", "scope": "a b"}
     for hint in HINTS:
@@ -360,6 +442,7 @@ def run(ctx):
                        {"op": "refresh", "token": ["refresh", 0], "cred": ["c1", "s1"], "scope": None},
                        {"op": "access", "token": ["access", 1], "required": ["a b"]}]
                 check_seq(ctx, ops, "golden-revoke")
+                check_seq_django(ctx, ops, "golden-revoke")
     # the same token revoked twice, by either string and either hint: the second revocation is not a no-op
     for by1, h1 in (("access", "access_token"), ("access", None), ("refresh", "refresh_token"), ("refresh", None)):
         for by2, h2 in (("access", "access_token"), ("access", None), ("refresh", "refresh_token"), ("refresh", None)):
@@ -370,6 +453,7 @@ def run(ctx):
                    {"op": "refresh", "token": ["refresh", 0], "cred": ["c1", "s1"], "scope": None},
                    {"op": "introspect", "token": ["access", 0], "cred": ["c1", "s1"], "hint": None}]
             check_seq(ctx, ops, "golden-revoke-twice")
+            check_seq_django(ctx, ops, "golden-revoke-twice")
     # revocation of a grant whose access token has already expired (the refresh token lives on for 864000 s)
     for dt in (3601, 863999, 864000, 864001, 2000000):
         for by, hint in (("refresh", "refresh_token"), ("refresh", None), ("access", None), ("access", "access_token")):
@@ -378,6 +462,7 @@ def run(ctx):
                    {"op": "refresh", "token": ["refresh", 0], "cred": ["c1", "s1"], "scope": None},
                    {"op": "access", "token": ["access", 0], "required": "a"}]
             check_seq(ctx, ops, "golden-revoke-expired")
+            check_seq_django(ctx, ops, "golden-revoke-expired")
     for cred in CREDS:
         for sc in (None, "a", "a b c", "b"):
             ops = [issue, {"op": "refresh", "token": ["refresh", 0], "cred": cred, "scope": sc},
@@ -387,7 +472,10 @@ def run(ctx):
                    {"op": "access", "token": ["access", 1], "required": None},
                    {"op": "introspect", "token": ["access", 1], "cred": ["c1", "s1"], "hint": "access_token"}]
             check_seq(ctx, ops, "golden-refresh")
+            check_seq_django(ctx, ops, "golden-refresh")
 
 
 def run_case(ctx, case):
+    if case.get("provider") == "django":
+        return check_seq_django(ctx, case["ops"], "replay")
     check_seq(ctx, case["ops"], "replay")
